@@ -33,8 +33,19 @@ func one(out []Dgram, what string) ([]byte, error) {
 	return out[0].Data, nil
 }
 
+// Deliverer hands a datagram to the server and returns what it sent.
+type Deliverer func(from *net.UDPAddr, d []byte, what string) []Dgram
+
+func (s *Srv) Direct() Deliverer {
+	return func(from *net.UDPAddr, d []byte, what string) []Dgram { out, _, _ := s.Deliver(from, d); return out }
+}
+
 // NewWB runs ClientHello .. ServerAuth (received, not yet read).
 func NewWB(srv *Srv, cfg transport.ClientConfig, addr *net.UDPAddr) (*WB, error) {
+	return NewWBVia(srv, srv.Direct(), cfg, addr)
+}
+
+func NewWBVia(srv *Srv, deliver Deliverer, cfg transport.ClientConfig, addr *net.UDPAddr) (*WB, error) {
 	w := &WB{Srv: srv, Addr: addr, Cfg: cfg}
 	hs, err := transport.VerifHsNewClientHS(&w.Cfg, srv.Addr, false)
 	if err != nil {
@@ -47,7 +58,7 @@ func NewWB(srv *Srv, cfg transport.ClientConfig, addr *net.UDPAddr) (*WB, error)
 		return nil, err
 	}
 	w.CH = append([]byte(nil), buf[:n]...)
-	out, _, _ := srv.Deliver(addr, w.CH)
+	out := deliver(addr, w.CH, "ClientHello")
 	if w.SH, err = one(out, "ClientHello"); err != nil {
 		return nil, err
 	}
@@ -60,7 +71,7 @@ func NewWB(srv *Srv, cfg transport.ClientConfig, addr *net.UDPAddr) (*WB, error)
 		return nil, err
 	}
 	w.CAck = append([]byte(nil), buf[:n]...)
-	out, _, _ = srv.Deliver(addr, w.CAck)
+	out = deliver(addr, w.CAck, "ClientAck")
 	if w.SA, err = one(out, "ClientAck"); err != nil {
 		return nil, err
 	}
@@ -120,8 +131,53 @@ func NewHWB(srv *Srv, cfg transport.ClientConfig, addr *net.UDPAddr) (*HWB, erro
 		return nil, err
 	}
 	out, _, _ := srv.Deliver(addr, w.Req)
+	return w.finish(out)
+}
+
+func (w *HWB) finish(out []Dgram) (*HWB, error) {
+	var err error
 	if w.Resp, err = one(out, "hidden request"); err != nil {
 		return nil, err
 	}
 	return w, nil
+}
+
+// Conn is a completed white-box client connection: session id and keys.
+type Conn struct {
+	Addr     *net.UDPAddr
+	SID      transport.SessionID
+	C2S, S2C [16]byte
+	Count    uint64
+}
+
+// Complete finishes the discoverable handshake through deliver and returns the client's keys.
+func (w *WB) Complete(deliver Deliverer) (*Conn, error) {
+	if err := w.Auth(); err != nil {
+		return nil, err
+	}
+	deliver(w.Addr, w.CAuth, "ClientAuth")
+	c := &Conn{Addr: w.Addr, SID: w.HS.VerifHsSessionID()}
+	c.C2S, c.S2C = w.HS.VerifHsFinalKeys()
+	return c, nil
+}
+
+// Complete reads the hidden response and returns the client's keys.
+func (w *HWB) Complete() (*Conn, error) {
+	w.HS.VerifHsSetDuplex(w.PreRS)
+	if _, err := w.HS.VerifHsReadPQServerResponseHidden(w.Resp); err != nil {
+		return nil, err
+	}
+	c := &Conn{Addr: w.Addr, SID: w.HS.VerifHsSessionID()}
+	c.C2S, c.S2C = w.HS.VerifHsFinalKeys()
+	return c, nil
+}
+
+// Packet seals the connection's next client-to-server transport message.
+func (c *Conn) Packet(pt []byte) []byte {
+	p, err := transport.VerifHsSeal(c.SID, c.C2S, c.Count, transport.MessageTypeTransport, pt)
+	if err != nil {
+		panic(err)
+	}
+	c.Count++
+	return p
 }
